@@ -142,7 +142,8 @@ Section C18.
   Proof. destruct x; cbn [is_text]; intros H; try discriminate; reflexivity. Qed.
 
   Lemma kids_out_lines L l :
-    Forall (fun k => data_style k = true -> render (p_node ind align L k) = simple_pp ind align L k) l ->
+    Forall (fun k => is_text k = false -> data_style k = true ->
+                     render (p_node ind align L k) = simple_pp ind align L k) l ->
     forall prev, sep_opt prev (hd (Comment []) l) = true \/ l = [] ->
     seps l = true ->
     forallb (fun k => (negb (is_empty_text k) && data_style k)%bool) l = true ->
@@ -167,16 +168,16 @@ Section C18.
       destruct s; [discriminate|discriminate].
     - rewrite (kids_out_nontext _ L prev x r Et).
       rewrite has_ind_true, (legit_before_sep prev _ Hp), (legit_after_sep _ _ Hnext). cbn [andb].
-      rewrite render_item, Hrec, (Hx Hdx).
+      rewrite render_item, Hrec, (Hx Et Hdx).
       assert (El : line L x = repeat_str ind L ++ simple_pp ind align L x ++ NL)
         by (unfold line; destruct x; try reflexivity; discriminate).
       rewrite El, <- !app_assoc. reflexivity.
   Qed.
 
-  Theorem pretty_is_simple n : forall L, data_style n = true ->
+  Theorem pretty_is_simple n : forall L, is_text n = false -> data_style n = true ->
     render (p_node ind align L n) = simple_pp ind align L n.
   Proof.
-    induction n as [ns name attrs kids IH|s|s|t c] using node_ind'; intros L Hd; try reflexivity.
+    induction n as [ns name attrs kids IH|s|s|t c] using node_ind'; intros L Ht Hd; try reflexivity; try discriminate.
     cbn [p_node simple_pp]. destruct (directive attrs false) eqn:Ed; [reflexivity|].
     cbn [data_style] in Hd. rewrite Ed in Hd. cbn [orb] in Hd. apply andb_prop in Hd as [Hs Hk].
     cbn [render]. rewrite pretty_attrs_simple. unfold tag_open, tag_close.
@@ -189,7 +190,7 @@ Section C18.
       rewrite (kids_out_lines (S L) ks).
       + unfold indent. rewrite (esc_ws_indent _ (ws_indent_repeat ind L ind_ws)), esc_NL.
         unfold line. rewrite <- !app_assoc. reflexivity.
-      + apply Forall_forall. intros k Hin Hdk. rewrite Forall_forall in IH. exact (IH k Hin (S L) Hdk).
+      + apply Forall_forall. intros k Hin Htk Hdk. rewrite Forall_forall in IH. exact (IH k Hin (S L) Htk Hdk).
       + left. subst ks. reflexivity.
       + exact Hs.
       + exact Hk.
